@@ -23,6 +23,7 @@ type markupDoc struct {
 	Want            data.MarkupInfo // expected result, canonical documents only
 	Sig             string
 	HtmlAttrs       string
+	ArticleWild     bool // canonical documents: the article record is not checked
 }
 
 type mgen struct {
@@ -248,13 +249,13 @@ func genMarkupDoc(r *RNG) markupDoc {
 	}
 	if p(3) {
 		if p(2) {
-			m.add("ie", true, `<meta name="title" content="`+m.tok("IET")+`">`)
+			m.add("ie", r.Intn(4) != 0, `<meta name="title" content="`+m.tok("IET")+`">`)
 		}
 		if p(2) {
-			m.add("ie", true, `<meta name="copyright" content="`+m.tok("IEC")+`">`)
+			m.add("ie", r.Intn(4) != 0, `<meta name="copyright" content="`+m.tok("IEC")+`">`)
 		}
 		if p(2) {
-			m.add("ie", true, `<meta name="displaydate" content="`+m.tok("IED")+`">`)
+			m.add("ie", r.Intn(4) != 0, `<meta name="displaydate" content="`+m.tok("IED")+`">`)
 		}
 		if p(2) {
 			m.add("ie", false, `<span class="byline-name">`+m.tok("IEA")+`</span>`)
@@ -276,7 +277,7 @@ func genMarkupDoc(r *RNG) markupDoc {
 	if r.Intn(6) == 0 {
 		d.OptOut = []string{"true", "TRUE", "false", "1", "True"}[r.Intn(5)]
 		name := []string{"IE_RM_OFF", "ie_rm_off"}[r.Intn(2)]
-		m.add("opt", true, `<meta name="`+name+`" content="`+d.OptOut+`">`)
+		m.add("opt", r.Intn(3) != 0, `<meta name="`+name+`" content="`+d.OptOut+`">`) // sometimes inside <body>
 		d.Sig += "opt:" + strings.ToLower(d.OptOut) + ","
 	}
 	m.neutral()
@@ -332,13 +333,28 @@ func genCanonMarkupDoc(r *RNG, k int) markupDoc {
 			site = m.tok("OGS")
 			m.add("og", true, `<meta property="og:site_name" content="`+site+`">`)
 		}
+		secEarly := false
 		if p(2) {
 			sec = m.tok("OGSEC")
-			m.add("og", true, `<meta property="article:section" content="`+sec+`">`)
+			tag := `<meta property="article:section" content="` + sec + `">`
+			if r.Intn(3) == 0 {
+				// an article:* tag that precedes og:type in the document
+				secEarly = true
+				m.fr = append([]mfrag{{"og", true, tag}}, m.fr...)
+			} else {
+				m.add("og", true, tag)
+			}
 		}
 		if p(2) {
 			pt = m.tok("OGPT")
 			m.add("og", true, `<meta property="article:published_time" content="`+pt+`">`)
+		}
+		if secEarly {
+			// whether a property seen before og:type counts is not specified: not checked
+			sec = "*"
+			if pt == "" {
+				d.ArticleWild = true
+			}
 		}
 		if reqMask == 15 {
 			og.on = true
@@ -442,15 +458,15 @@ func genCanonMarkupDoc(r *RNG, k int) markupDoc {
 		date := ""
 		if p(2) {
 			ie.title = m.tok("IET")
-			m.add("ie", true, `<meta name="title" content="`+ie.title+`">`)
+			m.add("ie", r.Intn(4) != 0, `<meta name="title" content="`+ie.title+`">`)
 		}
 		if p(2) {
 			ie.copyright = m.tok("IEC")
-			m.add("ie", true, `<meta name="copyright" content="`+ie.copyright+`">`)
+			m.add("ie", r.Intn(4) != 0, `<meta name="copyright" content="`+ie.copyright+`">`)
 		}
 		if p(2) {
 			date = m.tok("IED")
-			m.add("ie", true, `<meta name="displaydate" content="`+date+`">`)
+			m.add("ie", r.Intn(4) != 0, `<meta name="displaydate" content="`+date+`">`)
 		}
 		if p(2) {
 			ie.author = m.tok("IEA")
@@ -482,10 +498,10 @@ func genCanonMarkupDoc(r *RNG, k int) markupDoc {
 	switch opt {
 	case 1:
 		d.OptOut = []string{"true", "TRUE", "True"}[r.Intn(3)]
-		m.add("opt", true, `<meta name="IE_RM_OFF" content="`+d.OptOut+`">`)
+		m.add("opt", r.Intn(3) != 0, `<meta name="IE_RM_OFF" content="`+d.OptOut+`">`)
 	case 2:
 		d.OptOut = []string{"false", "0", "no"}[r.Intn(3)]
-		m.add("opt", true, `<meta name="IE_RM_OFF" content="`+d.OptOut+`">`)
+		m.add("opt", r.Intn(3) != 0, `<meta name="IE_RM_OFF" content="`+d.OptOut+`">`)
 	}
 	d.Sig += fmt.Sprintf("t=%s,opt=%d", ogType, opt)
 
